@@ -72,6 +72,8 @@ def _glue_error(message, tb):
     if not files:
         return False
     last = files[-1]
+    if "/rtflite/" in last:
+        return False          # raised by the code under test (wherever its tree is checked out), never glue
     return ("/vf/" in last and VERIF in last) or "/h_" in last or "vf-" in last
 
 
